@@ -150,7 +150,7 @@ CHECKS["C14"] = {
         {"name": "TestFixedOffset", "quick": 50000, "thorough": {"checks": 500000, "shards": 4}},
         {"name": "TestFixedOffsetUnsorted", "quick": 5000, "thorough": {"checks": 50000, "shards": 1}},
         {"name": "TestBitmapCodec", "quick": 10000, "thorough": {"checks": 100000, "shards": 8}},
-        {"name": "TestSnappyChunk", "quick": 5000, "thorough": {"checks": 50000, "shards": 8}},
+        {"name": "TestSnappyChunk", "quick": 5000, "thorough": {"checks": 10000, "shards": 4}},
     ],
     "fuzz": [
         {"name": "FuzzTSDBlock", "seconds": 60},
